@@ -814,10 +814,8 @@ def _is_stub(x) -> bool:
         return True
     if any((dotted_of(d) or "").endswith("abstractmethod") for d in x.node.decorator_list):
         return True
-    body = [
-        s for s in x.node.body if not (isinstance(s, ast.Expr) and isinstance(s.value, ast.Constant))
-    ]
-    return len(body) == 0 or all(isinstance(s, ast.Pass) for s in body)
+    # nothing but docstring / pass / constants bound to locals
+    return all(FuncInfo._trivial(s) for s in x.node.body)
 
 
 def _is_generator(f: FuncInfo) -> bool:
